@@ -3,7 +3,7 @@ import serverlib as sl
 import srvprops
 
 PROP = "C14"
-THEOREMS = ["C14_limits_every_reachable_state", "C14_connection_limit", "C14_open_beyond_limit_refused", "C14_closed_connection_slot_released", "C14_hangup_slot_released", "C14_subscription_limit", "C14_subscription_zero_example", "C14_channel_capacity_at_admission", "C14_payload_limit", "C14_payload_limit_server_cap", "C14_acl_entry_limit", "C14_inflight_zero", "C14_capacity_not_invariant_after_config_change", "C14_channel_limit", "C14_channel_created_only_with_room", "C14_channel_slot_released", "C14_channel_limit_example", "C14_source_limits_wiring", "C14_adjusted_limit_never_exceeds_configuration", "C14_adjusted_limit_cases", "C14_inflight_counter_is_the_number_in_flight", "C14_inflight_refusal_means_full_window", "C14_inflight_snapshot_drifts_refuted", "C14_source_inflight_decrements_live_counter"]
+THEOREMS = ["C14_limits_every_reachable_state", "C14_connection_limit", "C14_open_beyond_limit_refused", "C14_closed_connection_slot_released", "C14_hangup_slot_released", "C14_subscription_limit", "C14_subscription_zero_example", "C14_channel_capacity_at_admission", "C14_payload_limit", "C14_payload_limit_server_cap", "C14_acl_entry_limit", "C14_inflight_zero", "C14_capacity_not_invariant_after_config_change", "C14_channel_limit", "C14_channel_created_only_with_room", "C14_channel_slot_released", "C14_channel_limit_example", "C14_source_limits_wiring", "C14_adjusted_limit_never_exceeds_configuration", "C14_adjusted_limit_cases", "C14_inflight_counter_is_the_number_in_flight", "C14_inflight_refusal_means_full_window", "C14_inflight_snapshot_drifts_refuted", "C14_source_inflight_decrements_live_counter", "C14_conc_subscription_limit", "C14_conc_subscription_limit_late_index_refuted", "C14_conc_member_limit", "C14_source_subscription_limit", "C14_source_segment_layout"]
 
 
 def boot_stage(thorough, violations, stats):
